@@ -195,6 +195,7 @@ class Loops:
         n, el, et = acc
         if et is None:
             return n, []
+        st.assume(0 <= k, k < n)
         return n, [(st, el(k))]
 
     def normalize_iter(self, st, itv):
@@ -465,9 +466,8 @@ class Loops:
                 cs = created(s)
                 disj.append(z3.Exists(cs, d) if cs else d)
             oldt = ex.to_term(ft, Ref(hid), ("set", et)) if (old.sv is not None or old.items) else z3.K(m.sort(et), False)
-            new = ex.fresh(ft, "acc", ("set", et))
             added = z3.Exists([k], z3.Or(*disj) if len(disj) > 1 else disj[0]) if disj else z3.BoolVal(False)
-            ft.assume(z3.ForAll([x], z3.Select(new.term, x) == z3.Or(z3.Select(oldt, x), added)))
+            new = SV(z3.Lambda([x], z3.Or(z3.Select(oldt, x), added)), ("set", et))
             ft.heap[hid] = SetObj(sv=new, frozen=old.frozen)
             return
         # list accumulator
